@@ -1112,7 +1112,7 @@ def load_and_run_results(A: Analysis, col: Collector, rule: str):
 @prop(
     "C13",
     technique="typestate + handler-completion analysis over the exception CFG of the run functions; dominance (edge) checks in Task.__call__/Job.done; abstract key-coverage of PythonTask._run return binding; resolved-call signature check",
-    decides="(a) the handler after the task body sets result.errored=True, calls record_error and re-raises on every completing path; (b) a cached result is returned only under `is not None and not errored`; (c) Task.__call__ raises for errored results and Job.done never returns True for one; (d) no path publishes errored=False without outputs; (e) every declared python output is bound or NOTHING is rejected; (f) load_and_run's error branches build Result with its real signature; (g) the errored latch that the cache check may set on the Job is cleared before a successful re-execution returns (otherwise the fresh success is reported as the old failure).",
+    decides="(a) the handler after the task body sets result.errored=True, calls record_error and re-raises on every completing path; (b) a cached result is returned only under `is not None and not errored`; (c) Task.__call__ raises for errored results and Job.done never returns True for one; (d) no path publishes errored=False without outputs; (e) every declared python output is bound or NOTHING is rejected; (f) load_and_run's error branches build Result with its real signature; (g) the errored latch that the cache check may set on the Job is cleared before a successful re-execution returns (otherwise the fresh success is reported as the old failure). Additionally (C13.exit-status): every Environment.execute implementation raises on a non-zero return code through an exact guard (truthiness or `!= 0`, every path raising); `> 0` is rejected because a process killed by a signal has a negative code.",
     not_decided="the content of the recorded error; that a non-zero exit status is turned into an exception by the environments' executors (checked only as raise presence in C27/C39 scope).",
     level_note="Trusted: may-raise tables; attrs init synthesis (pydra_sa/sigcheck.py) follows attrs' documented rules for define(kw_only, auto_attribs), field(init, default, factory, kw_only) and leading-underscore stripping.",
 )
@@ -1351,7 +1351,7 @@ def _calls_in_node(n: Node):
 @prop(
     "C19",
     technique="must-pass-through on the run functions' CFGs, memo-shape check of Job.checksum, def-use flow from job.inputs to the task body's arguments",
-    decides="(a) every normally returning path that executed the task body passes _check_for_hash_changes(), which raises when Task._hash_changes() is non-empty; (b) the job checksum is memoised before the task body runs (the lock expression reads it) and results are saved under self.cache_dir; (c) every task body receives its input values through the copy-mode-aware staging Job.inputs, and Job.inputs stages with mode=fld.copy_mode.",
+    decides="(a) every normally returning path that executed the task body passes _check_for_hash_changes(), which raises when Task._hash_changes() is non-empty; (b) the job checksum is memoised before the task body runs (the lock expression reads it) and results are saved under self.cache_dir; (c) every task body receives its input values through the copy-mode-aware staging Job.inputs, and Job.inputs stages with mode=fld.copy_mode. Additionally: Job.inputs stages every field whose type holds a FileSet and that has a value, with the field's own copy_mode and copy_collation; no other condition (e.g. on the copy mode) may skip staging.",
     not_decided="which in-place mutations the content hash can detect; behaviour of user functions that keep references to inputs.",
     level_note="Trusted: flow analysis (flow-insensitive def-use with property inlining bound 2).",
 )
@@ -1813,7 +1813,7 @@ def protocol_steps(A: Analysis, fn: FuncInfo, depth: int = 2) -> list[str]:
 @prop(
     "C17",
     technique="sibling agreement: ordered protocol-step extraction (resolved callees, helper inlining bound 2) from the sync/async run functions and the sync/async workflow expanders",
-    decides="the two run functions perform the same result-affecting protocol steps in the same order (lock name, hit test, populate, Result state, hooks, task body, outputs, error marking, record, save, restore, hash check), and the two workflow expanders agree on construct -> execution_graph -> return_values -> get_runnable_tasks -> loop condition -> rerun expression; the worker's run() forwards to the job's run function with the same rerun value; the scheduler's done/errored decision for a queued job is not taken from the cache alone (known findings: it is). Additionally: both expanders have the same exits outside their scheduling loop.",
+    decides="the two run functions perform the same result-affecting protocol steps in the same order (lock name, hit test, populate, Result state, hooks, task body, outputs, error marking, record, save, restore, hash check), and the two workflow expanders agree on construct -> execution_graph -> return_values -> get_runnable_tasks -> loop condition -> rerun expression; the worker's run() forwards to the job's run function with the same rerun value; the scheduler's done/errored decision for a queued job is not taken from the cache alone (known findings: it is). Additionally: both expanders have the same exits outside their scheduling loop. The evidence that the worker has returned from a job must be tested before the cache lookup in the same `and`, and the per-submission record must be emptied before the job is handed to the worker.",
     not_decided="equality of outputs across workers and schedules (behavioural; the premise is task determinism).",
     level_note="Audited exceptions: os.chdir(cache_dir) and audit_task only in the sync run function; `self._errored = True` only in run_async (each listed in rules/runfn.py with its reason).",
 )
